@@ -46,7 +46,7 @@ def run(cx):
         # length 5 and 6 sampled (seeded)
         import random
         rnd = random.Random(cx.seed)
-        kinds = ["normal", "error", "panic", "deeppanic", "overflow", "cancelled"]
+        kinds = ["normal", "error", "panic", "deeppanic", "overflow", "opoverflow", "cancelled"]
         for _ in range(8000):
             n = rnd.choice([4, 5, 6])
             inv, used = [], set()
@@ -56,7 +56,7 @@ def run(cx):
                 late = [c for c in range(1, i) if c not in used and inv[c - 1]["ctx"] == "cancel" and rnd.random() < 0.3]
                 used.update(late)
                 inv.append({"api": rnd.choice(["RunCode", "Call"]), "kind": kind, "ctx": ctxk, "late": late})
-            exp = [{"normal": "value", "error": "index error", "panic": "panic", "deeppanic": "panic", "overflow": "anyerror", "cancelled": "ctxerr"}[v["kind"]] for v in inv]
+            exp = [{"normal": "value", "error": "index error", "panic": "panic", "deeppanic": "panic", "overflow": "anyerror", "opoverflow": "anyerror", "cancelled": "ctxerr"}[v["kind"]] for v in inv]
             hists.append({"inv": inv, "exp": exp})
     rows = [{"id": i, "inv": h["inv"], "exp": h["exp"]} for i, h in enumerate(hists)]
     hin = cx.path("hist.ndjson")
